@@ -1,0 +1,8 @@
+//go:build verif
+
+package sensors
+
+// VerifReset clears the package registry between simulated runs.
+func VerifReset() {
+	sensorMap.Clear()
+}
